@@ -343,14 +343,20 @@ theorem trimModulated_length (mod : List α) (n tr start stop : Nat) (hm : mod.l
 theorem csModulate_lengths (filt : List α → List α) (hf : ∀ l, (filt l).length = l.length)
     (c : ModCfg) (hc : c.filters = true) (hr : 1 ≤ c.rise) (s : CS α) (n m : Nat)
     (ha : s.amp.length = n) (hd : s.det.length = n) (hp : s.phase.length = n)
-    (hm : m ≤ n + 2 * c.pad) :
+    (hm : m ≤ n + 2 * c.pad) (hm0 : n = 0 → m = 0) :
     (csModulate filt c s (some m)).amp.length = m ∧ (csModulate filt c s (some m)).det.length = m ∧
       (csModulate filt c s (some m)).phase.length = m := by
   have l1 := channelModulate_plain filt hf c hc s.amp
   have l2 := channelModulate_keep filt hf c hc hr s.det
   have l3 := padKeepRight_length s.phase ((channelModulate filt c s.amp false).length - s.phase.length)
-  simp only [csModulate, List.length_take]
-  omega
+  unfold csModulate
+  by_cases h0 : s.amp.length = 0
+  · rw [if_pos h0]
+    have := hm0 (by omega)
+    omega
+  · rw [if_neg h0]
+    simp only [List.length_take]
+    omega
 
 theorem csModulate_nofilter_lengths (filt : List α → List α) (c : ModCfg) (hc : c.filters = false)
     (s : CS α) (n m : Nat) (ha : s.amp.length = n) (hd : s.det.length = n) (hp : s.phase.length = n)
@@ -358,8 +364,12 @@ theorem csModulate_nofilter_lengths (filt : List α → List α) (c : ModCfg) (h
     (csModulate filt c s (some m)).amp.length = m ∧ (csModulate filt c s (some m)).det.length = m ∧
       (csModulate filt c s (some m)).phase.length = m := by
   have l3 := padKeepRight_length s.phase ((channelModulate filt c s.amp false).length - s.phase.length)
-  simp only [csModulate, channelModulate_nofilter filt c hc, List.length_take] at l3 ⊢
-  omega
+  unfold csModulate
+  by_cases h0 : s.amp.length = 0
+  · rw [if_pos h0]; omega
+  · rw [if_neg h0]
+    simp only [channelModulate_nofilter filt c hc, List.length_take] at l3 ⊢
+    omega
 
 end Modulate
 
